@@ -21,7 +21,7 @@ def bounds(tier):
 
 
 def mk(op, N, k=1, tk=None, region=None, rname='', lead=2, trail=0, gap='sym', dup=None, timeout=60,
-       harness='order_cell', sk=None, level='story', pid='C01', w=0, extra=None):
+       harness='order_cell', sk=None, level='story', pid='C01', w=0, extra=None, idlen=1):
     lvl, has_t, has_src, has_new = OPS[op]
     P = {'op': op, 'N': N, 'k': k, 'lead': lead, 'trail': trail}
     if lvl == 'item':
@@ -33,7 +33,7 @@ def mk(op, N, k=1, tk=None, region=None, rname='', lead=2, trail=0, gap='sym', d
     pre = []
     if lvl == 'item':
         sym += [('p0', 'str'), ('p1', 'str')]
-        pre += str_pre(['p0', 'p1']) + ['p0 != p1']
+        pre += str_pre(['p0', 'p1'], idlen) + ['p0 != p1']
     if harness == 'order_cell':
         if has_new:
             sym += [('n%d' % i, 'str') for i in range(k)]
@@ -76,11 +76,13 @@ def mk(op, N, k=1, tk=None, region=None, rname='', lead=2, trail=0, gap='sym', d
         pre.append('-1 <= g < %d' % N)
     elif gap is not None:
         P['gap'] = gap
-    pre = str_pre(strs) + distinct(strs) + pre
+    pre = str_pre(strs, idlen) + distinct(strs) + pre
     if region:
         pre.append(region)
     stubs = ('hash',)
     parts = [pid, op, rname or 'any', 'N%d' % N]
+    if idlen != 1:
+        parts.append('idlen' + str(idlen))
     if k != 1:
         parts.append('k%d' % k)
     if tk and tk != 'existing':
@@ -145,6 +147,10 @@ def cells(tier):
         out.append(mk('roStoryInsert', N, k=2, dup=0, rname='dup-first', timeout=T))
         out.append(mk('EAStoryInsert', N, k=2, dup=0, rname='dup-first', timeout=T))
         out.append(mk('EAStoryInsert', N, k=2, dup=1, rname='dup-second', timeout=T))
+    # IDs of one or two characters: one ID may be a prefix or suffix of another
+    for op, kw in (('roStoryMove', {}), ('EAStoryMove', {'k': 2}), ('roStoryDelete', {'k': 2}), ('roStoryReplace', {}),
+                   ('roStorySend', {}), ('EAStorySwap', {'k': 2}), ('roStoryInsert', {})):
+        out.append(mk(op, 3, gap=None, idlen='1-2', rname='prefix-ids', timeout=T, **kw))
     # one larger shape per order-sensitive type (no gap child: keeps the path tree small)
     big = 4 if tier == 'quick' else 5
     if tier == 'quick':
